@@ -72,6 +72,11 @@ type AO struct {
 	Mark int64
 	Toys []AToy `gorm:"polymorphic:Owner"`
 	Kids []AKid `gorm:"foreignKey:OwnerID"`
+	Tags []ATag `gorm:"many2many:ao_tags"`
+}
+type ATag struct {
+	ID   int64 `gorm:"primaryKey"`
+	Name string
 }
 type AOS struct {
 	ID        int64 `gorm:"primaryKey"`
@@ -79,6 +84,7 @@ type AOS struct {
 	Mark      int64
 	DeletedAt gorm.DeletedAt
 	Toys      []AToy `gorm:"polymorphic:Owner"`
+	Tags      []ATag `gorm:"many2many:aos_tags"`
 }
 type AKid struct {
 	ID      int64 `gorm:"primaryKey"`
@@ -89,7 +95,8 @@ type AKid struct {
 func dumpAssoc(db *gorm.DB) string {
 	var sb strings.Builder
 	for _, q := range []string{"SELECT id, name, owner_id, IFNULL(deleted_at,'') FROM a_toys ORDER BY id", "SELECT id, name, mark, '' FROM aos ORDER BY id",
-		"SELECT id, name, mark, IFNULL(deleted_at,'') FROM ao_ss ORDER BY id", "SELECT id, name, owner_id, '' FROM a_kids ORDER BY id"} {
+		"SELECT id, name, mark, IFNULL(deleted_at,'') FROM ao_ss ORDER BY id", "SELECT id, name, owner_id, '' FROM a_kids ORDER BY id",
+		"SELECT ao_id, a_tag_id, '', '' FROM ao_tags ORDER BY 1, 2", "SELECT aos_id, a_tag_id, '', '' FROM aos_tags ORDER BY 1, 2", "SELECT id, name, '', '' FROM a_tags ORDER BY id"} {
 		rows, err := db.Raw(q).Rows()
 		if err != nil {
 			return "ERR " + err.Error()
@@ -157,7 +164,7 @@ func (e *env) run(in Input) Obs {
 	}
 	before := dump(db, table)
 	if in.Target == "assoc_select" {
-		for _, t := range []string{"a_toys", "aos", "ao_ss", "a_kids"} {
+		for _, t := range []string{"a_toys", "aos", "ao_ss", "a_kids", "ao_tags", "aos_tags", "a_tags"} {
 			db.Exec("DELETE FROM " + t)
 		}
 		for i := 1; i <= 2; i++ {
@@ -166,6 +173,9 @@ func (e *env) run(in Input) Obs {
 			db.Exec("INSERT INTO a_toys (id, name, owner_id, owner_type) VALUES (?,?,?,?)", i, "t", i, "aos")
 			db.Exec("INSERT INTO a_toys (id, name, owner_id, owner_type) VALUES (?,?,?,?)", i+10, "t", i, "ao_ss")
 			db.Exec("INSERT INTO a_kids (id, name, owner_id) VALUES (?,?,?)", i, "k", i)
+			db.Exec("INSERT INTO a_tags (id, name) VALUES (?,?)", i, "g")
+			db.Exec("INSERT INTO ao_tags (ao_id, a_tag_id) VALUES (?,?)", i, i)
+			db.Exec("INSERT INTO aos_tags (aos_id, a_tag_id) VALUES (?,?)", i, i)
 		}
 		before = dumpAssoc(db)
 	}
@@ -349,8 +359,11 @@ func runTarget(tx *gorm.DB, in Input, table string) *gorm.DB {
 		if in.Finisher == "delete_toys" {
 			sel = tx.Select("Toys")
 		}
+		if in.Finisher == "delete_tags" {
+			sel = tx.Select("Tags")
+		}
 		switch in.Finisher {
-		case "delete", "delete_toys":
+		case "delete", "delete_toys", "delete_tags":
 			return sel.Delete(owner)
 		case "updates_map":
 			return sel.Model(owner).Updates(map[string]interface{}{"mark": 7})
@@ -471,7 +484,7 @@ var targets = []struct {
 	{"slice", []string{"update", "updates_map", "update_column", "update_columns", "delete"}, []int64{0, 3}},
 	// (an Update whose Select names only associations has nothing to set and sends nothing: not
 	// generated)
-	{"assoc_select", []string{"delete", "delete_toys"}, []int64{0, 1}},
+	{"assoc_select", []string{"delete", "delete_toys", "delete_tags"}, []int64{0, 1}},
 }
 
 func main() {
@@ -480,7 +493,7 @@ func main() {
 	for _, k := range []string{"off", "config"} {
 		db, rec, _, err := gdb.Open(gdb.Opt{Config: &gorm.Config{AllowGlobalUpdate: k == "config", Logger: logger.Discard}})
 		lib.Must(err)
-		lib.Must(db.AutoMigrate(&whr.T{}, &whr.TS{}, &AO{}, &AOS{}, &AToy{}, &AKid{}))
+		lib.Must(db.AutoMigrate(&whr.T{}, &whr.TS{}, &AO{}, &AOS{}, &AToy{}, &AKid{}, &ATag{}))
 		e.dbs[k], e.rec[k] = db, rec
 	}
 	out := lib.NewOut(a.Out, "C09")
